@@ -47,6 +47,8 @@ func (h *concHolder) MaxParallelPulls() uint32 {
 	return h.Holder.MaxParallelPulls()
 }
 
+var concWrongType int32 // pull requests that did not carry the type of the only holder that was given items
+
 type concStamp struct {
 	Peer int   `json:"peer"`
 	Us   int64 `json:"us"`
@@ -73,6 +75,9 @@ func concCollector(mgr *protocol.PushPullManager, start time.Time) (stop func() 
 	quit, done := make(chan struct{}), make(chan struct{})
 	take := func() {
 		for _, q := range mgr.VerifDrain() {
+			if q.Type != c20Type {
+				atomic.AddInt32(&concWrongType, 1)
+			}
 			k := ph{peerNo(q.Peer), hashNo(q.Hash)}
 			got[k] = append(got[k], time.Since(start).Microseconds())
 		}
@@ -99,6 +104,9 @@ func concRoundA(c *hx.Ctx, round, n, announcers int, delay time.Duration, tot *c
 	wrap := &concHolder{Holder: holder, cap: 1}
 	mgr := protocol.NewPushPullManager()
 	mgr.VerifAddEntryHolder(c20Type, wrap)
+	for _, ty := range []uint8{1, 2} { // other entry types registered before Run, as in the node; they get no items
+		mgr.VerifAddEntryHolder(ty, pushpull.NewDefaultHolder(3, pushpull.NewDefaultPushTracker(delay)))
+	}
 	mgr.Run()
 	start := time.Now()
 	stop := concCollector(mgr, start)
@@ -172,6 +180,9 @@ func concRoundA(c *hx.Ctx, round, n, announcers int, delay time.Duration, tot *c
 	time.Sleep(20 * time.Millisecond)
 	got := stop()
 
+	if w := atomic.SwapInt32(&concWrongType, 0); w > 0 {
+		c.Fail("C20:pull-wrong-type", fmt.Sprintf("round %d: %d pull requests carried a push type other than %d, the type of the only holder that was given items (3 holders registered before Run)", round, w, c20Type), nil)
+	}
 	if panics > 0 {
 		c.Fail("C20:obs-panic", fmt.Sprintf("round %d: %d concurrent callers of addPush/AddEntry panicked", round, panics), nil)
 	}
